@@ -4,6 +4,7 @@ package referenceclient
 
 import (
 	"context"
+	"encoding/base64"
 	"encoding/json"
 	"errors"
 	"net/http"
@@ -12,6 +13,9 @@ import (
 	"connectrpc.com/conformance/internal"
 	"connectrpc.com/conformance/internal/grpcutil"
 	"connectrpc.com/conformance/internal/tracer"
+	"google.golang.org/genproto/googleapis/rpc/status"
+	"google.golang.org/protobuf/proto"
+	"google.golang.org/protobuf/types/known/anypb"
 )
 
 var errVerifTrace = errors.New("verif: trace error")
@@ -270,4 +274,62 @@ func H13e_q() {
 		vAssert(vRec.statusOn == wantStatus, "the gRPC status check reads the in-body trailers, the trailers-only headers, or the HTTP trailers, as the response shape dictates")
 	}
 	vAssert((p.n == 1) == (!isGRPC && hasTrailer) && p.n <= 1, "HTTP trailers are flagged exactly when the protocol is not gRPC")
+}
+
+// ---- H13f: grpc-status / grpc-message / grpc-status-details-bin must tell the same story ----
+//
+// base64 and protobuf decoding are contract stubs for this harness only (registry: Only): the "encoded" status is
+// the byte string [code, number of details, message...]. Natively the real google.rpc.Status is marshalled and
+// base64-encoded without padding, as the reference server does.
+
+func vModelB64DecodeString(enc *base64.Encoding, s string) ([]byte, error) { return []byte(s), nil }
+
+func vModelUnmarshalStatus(b []byte, m proto.Message) error {
+	st := m.(*status.Status)
+	if len(b) < 2 {
+		return errVerifTrace
+	}
+	st.Code = int32(b[0])
+	for i := 0; i < int(b[1]); i++ {
+		st.Details = append(st.Details, &anypb.Any{TypeUrl: "t"})
+	}
+	st.Message = string(b[2:])
+	return nil
+}
+
+func H13f_q() {
+	code1 := vInt("code1", 0, 16)
+	code2 := vInt("code2", 0, 16)
+	nd := vInt("ndetails", 0, 1)
+	hasMsg := vBool("hasMsg")
+	msg1 := vString("m1", 2)
+	msg2 := vString("m2", 2)
+	for i := 0; i < len(msg1); i++ {
+		vAssume(msg1[i] < 0x80) // ASCII: non-ASCII messages are the subject of H13a
+	}
+	for i := 0; i < len(msg2); i++ {
+		vAssume(msg2[i] < 0x80)
+	}
+	h := http.Header{"Grpc-Status": []string{strconv.Itoa(code1)}}
+	enc := grpcutil.PercentEncodeMessage(msg1)
+	if hasMsg {
+		h["Grpc-Message"] = []string{enc}
+	}
+	if vNative() {
+		st := &status.Status{Code: int32(code2), Message: msg2}
+		for i := 0; i < nd; i++ {
+			st.Details = append(st.Details, &anypb.Any{TypeUrl: "type.googleapis.com/google.protobuf.Empty"})
+		}
+		b, err := proto.Marshal(st)
+		if err != nil {
+			panic(err)
+		}
+		h["Grpc-Status-Details-Bin"] = []string{base64.RawStdEncoding.EncodeToString(b)}
+	} else {
+		h["Grpc-Status-Details-Bin"] = []string{string([]byte{byte(code2), byte(nd)}) + msg2}
+	}
+	p := &vCountPrinter{}
+	checkGRPCStatus(h, p)
+	bad := code2 != code1 || (code2 == 0 && nd > 0) || (hasMsg && msg2 != msg1) || (hasMsg && code1 == 0 && enc != "")
+	vAssert((p.n == 0) == !bad, "status trailers are accepted exactly when grpc-status, grpc-message and grpc-status-details-bin agree (and an OK status carries neither message nor details)")
 }
